@@ -1135,7 +1135,10 @@ func (w *Worktree) copyObjectToWorktree(cfg *config.Config, object *object.File,
 		}
 		defer ioutil.CheckClose(src, &err)
 
-		if !stat.IsBinary() {
+		// Same as git's "safer autocrlf" (convert.c, will_convert_lf_to_crlf):
+		// content that already has a CR (lone CR makes it binary) or a CRLF
+		// line ending is left untouched.
+		if !stat.IsBinary() && stat.CRLF == 0 {
 			dst = convert.NewCRLFWriter(dst)
 		}
 	}
